@@ -26,6 +26,12 @@ type SliceV struct {
 	arr      []value // backing (shared)
 	off, len int
 	cap      int
+	// set when the slice is []rune(s) / []byte(s) of a symbolic string and has only
+	// been re-sliced since (the library never writes into such slices): lets
+	// string(slice) be evaluated per alternative of the source string
+	src      *SymStr
+	srcBytes bool
+	srcLo    int
 }
 
 type MapV struct {
